@@ -2669,6 +2669,40 @@ def builtin_summary(I, cal, args, node, st):
         r = known_seq_summary(I, cal, name, args, node, st)
         if r is not None:
             return r
+    if ('iterator::Iterator::' in cal or 'core::iter::traits::iterator::Iterator>::' in cal) and args and name in ('skip_while', 'take_while', 'filter', 'skip', 'take', 'count'):
+        # iterator adaptors over the octets of a literal byte string (std's definitions applied to the known elements):
+        #   skip_while(p)  everything from the first element p rejects;   take_while(p)  everything before it;   filter(p)  the elements
+        #   p accepts;   skip(n) / take(n)  without / only the first n;   count()  the number of elements.
+        # The result of an adaptor is again a literal byte string (an iterator over it).  Nothing is modelled when the predicate
+        # does not decide on some element.
+        src = args[0]
+        while src[0] == 'call' and src[1].rsplit('::', 1)[-1] in ('into_iter', 'iter', 'copied', 'cloned') and len(src[2]) == 1:
+            src = src[2][0]
+        if src[0] == 'lit' and isinstance(src[1], bytes) and len(src[1]) <= 256:
+            octs = src[1]
+            if name == 'count' and len(args) == 1:
+                return [Out('val', ('lit', len(octs)), st)]
+            if name in ('skip', 'take') and len(args) == 2 and args[1][0] == 'lit' and isinstance(args[1][1], int) and not isinstance(args[1][1], bool) and args[1][1] >= 0:
+                return [Out('val', ('lit', octs[args[1][1]:] if name == 'skip' else octs[:args[1][1]]), st)]
+            if name in ('skip_while', 'take_while', 'filter') and len(args) == 2 and args[1][0] in ('closure', 'fn'):
+                verdicts, s, okm = [], st, True
+                for x in octs:
+                    if name != 'filter' and verdicts and not verdicts[-1]:
+                        break           # (the predicate of skip_while / take_while is not called again once it has said no)
+                    outs_ = [o for o in I.apply(args[1], [('lit', x)], node, s)]
+                    if len(outs_) != 1 or outs_[0].kind != 'val':
+                        okm = False; break
+                    ds = I.decide(outs_[0].val, outs_[0].st)
+                    if len(ds) != 1:
+                        okm = False; break
+                    verdicts.append(ds[0][0]); s = ds[0][1]
+                if okm:
+                    if name == 'filter':
+                        res_ = bytes(x for x, v in zip(octs, verdicts) if v)
+                    else:
+                        k = verdicts.index(False) if False in verdicts else len(octs)
+                        res_ = octs[k:] if name == 'skip_while' else octs[:k]
+                    return [Out('val', ('lit', res_), s)]
     if name == 'try_from' and len(args) == 1 and args[0][0] == 'lit' and isinstance(args[0][1], int) and not isinstance(args[0][1], bool):
         # checked integer conversion of a known number: Ok(n) when the target type holds it, Err otherwise
         # (std spreads these impls over several modules - core::convert::num, ..::ptr_try_from_impls -: the impl header names the types)
